@@ -113,6 +113,33 @@ static void do_look(const char* how, int t, int c, int m, int th) {
   ev_end();
 }
 
+/* member lookups on one (type, class) pair back to back inside ONE try block - nothing else is looked up in between (opening a
+   try block is itself a lookup); a refused lookup ends the block, the remaining ones continue in the next block */
+static void do_lookseq(const char* how, int t, int c, int nm, const int* ms) {
+  char buf[256]; var o = fake_obj(t, buf);
+  var type = type_no(t), cls = *CL[c];
+  struct Decl d; raw_decl(type, &d);
+  static long long res[64]; static const char* excs[64];
+  int istype = !strcmp(how, "tmeth");
+  volatile int k = 0;
+  while (k < nm) {
+    volatile int start = k;
+    try {
+      for (; k < nm; k++) {
+        excs[k] = "ClassError?";                    /* overwritten on success; if the lookup raises, the handler names the exception */
+        var inst = istype ? type_method_at_offset(type, cls, (size_t)ms[k] * sizeof(var), "member") : method_at_offset(o, cls, (size_t)ms[k] * sizeof(var), "member");
+        res[k] = (long long)(intptr_t)inst; excs[k] = "";
+      }
+    } catch (e) { excs[k] = exc_name(e); res[k] = 0; k++; }
+    (void)start;
+  }
+  for (int i = 0; i < nm; i++) {
+    long long r = excs[i][0] ? 0 : token_of(&d, (var)(intptr_t)res[i]);
+    ev_begin("look"); ev_str("how", how); ev_int("t", t); ev_int("c", c); ev_int("m", ms[i]); ev_int("r", r); ev_str("exc", excs[i]); ev_int("th", 0);
+    ev_end();
+  }
+}
+
 /* concurrent first lookups: every thread records into its own buffer, merged afterwards */
 struct Job { int th, nt, rounds; int* ts; long long (*res)[4]; int nres; unsigned seed; };
 static void* worker(void* arg) {
@@ -160,6 +187,8 @@ int main(int argc, char** argv) {
       continue;
     }
     if (hc_is(0, "look")) { do_look(hc_w[1], (int)hc_int(2), (int)hc_int(3), (int)hc_int(4), 0); continue; }
+    if (hc_is(0, "lookseq")) { int ms[64]; int nm = 0; for (int i = 4; i < hc_nw && nm < 64; i++) ms[nm++] = (int)hc_int(i);
+      do_lookseq(hc_w[1], (int)hc_int(2), (int)hc_int(3), nm, ms); continue; }
     if (hc_is(0, "cast")) {
       int t = (int)hc_int(1), u = (int)hc_int(2);
       char buf[256]; var o = fake_obj(t, buf);
